@@ -221,3 +221,95 @@ func VerifC10RequestTrailing() {
 	}
 	v.Reach("C10.requesttrailing")
 }
+
+// one byte of an extension-field header (type, length, nonce length, ciphertext length) of a genuine request is
+// replaced by any other value: if the packet is still accepted, what was verified is the sealed nonce and
+// ciphertext over the untouched bytes before the authenticator (length fields that lie are not a way around
+// the authenticator)
+func c10TamperRequestHeader(positions []int, cookieLen int) {
+	key := v.Bytes("key", 32)
+	uid := v.Bytes("uid", 32)
+	cookie := v.Bytes("cookie", cookieLen)
+	var pkt Packet
+	pkt.UniqueID.ID = uid
+	pkt.Cookies = append(pkt.Cookies, Cookie{Cookie: cookie})
+	pkt.Auth.Key = key
+	buf := make([]byte, 48)
+	copy(buf, v.Bytes("ntphdr", 48))
+	EncodePacket(&buf, &pkt)
+	n := len(buf)
+	authpos := n - 40
+	for _, rel := range positions {
+		i := rel
+		if rel < 0 {
+			i = authpos - rel - 1 // -1..-8: the eight header bytes of the authenticator field
+		}
+		adv := make([]byte, n)
+		copy(adv, buf)
+		b := v.Byte("tampered")
+		v.Assume(b != buf[i] && b <= c10maxTamper)
+		adv[i] = b
+		var p2 Packet
+		if DecodePacket(&p2, adv) == nil && ProcessRequest(adv, key, &p2) == nil {
+			v.Assert(p2.Auth.pos == authpos, "C10.tamper.accepted-only-with-the-authenticator-where-it-was")
+			v.Assert(c10eq(p2.Auth.Nonce, buf[authpos+8:authpos+24]) && c10eq(p2.Auth.CipherText, buf[authpos+24:]), "C10.tamper.accepted-only-with-the-sealed-nonce-and-ciphertext")
+		}
+	}
+	v.Reach("C10.tamperrequest")
+}
+
+// the replaced byte is a type byte or the low byte of a length field, with values up to c10maxTamper (announced
+// lengths far beyond the packet only make the copies longer; stated bound)
+const c10maxTamper = 48
+
+func VerifC10TamperAuthHeader() { c10TamperRequestHeader([]int{-1, -2, -4, -6, -8}, 8) }
+
+// the same for a response: a lying length field in the authenticator header does not get a response accepted
+// without the sealed nonce and ciphertext
+func VerifC10TamperResponseAuthHeader() {
+	s2c := v.Bytes("s2c", 32)
+	uid := v.Bytes("uid", 32)
+	resp := NewResponsePacket([][]byte{v.Bytes("cookie", 8)}, s2c, uid)
+	buf := make([]byte, 48)
+	copy(buf, v.Bytes("ntphdr", 48))
+	EncodePacket(&buf, &resp)
+	n := len(buf)
+	authpos := 48 + 36
+	for _, k := range []int{0, 1, 3, 5, 7} {
+		i := authpos + k
+		adv := make([]byte, n)
+		copy(adv, buf)
+		b := v.Byte("tampered")
+		v.Assume(b != buf[i] && b <= c10maxTamper)
+		adv[i] = b
+		var g ntske.Fetcher
+		var p2 Packet
+		if DecodePacket(&p2, adv) == nil && ProcessResponse(adv, s2c, &g, &p2, uid) == nil {
+			v.Assert(p2.Auth.pos == authpos, "C10.tamper.response-accepted-only-with-the-authenticator-where-it-was")
+			v.Assert(c10eq(p2.Auth.Nonce, buf[authpos+8:authpos+24]) && c10eq(p2.Auth.CipherText, buf[authpos+24:]), "C10.tamper.response-accepted-only-with-the-sealed-nonce-and-ciphertext")
+		}
+	}
+	v.Reach("C10.tamperresponse")
+}
+
+// an authentic response (sealed under the session's S2C key by the real server-side code) that answers a
+// different request - its unique identifier is any other byte string, in particular a longer one that merely
+// starts with the outstanding request's identifier - is not accepted
+func c10ResponseOtherID(idLen int) {
+	s2c := v.Bytes("s2c", 32)
+	reqID := v.Bytes("reqid", 32)
+	otherID := v.Bytes("otherid", idLen)
+	resp := NewResponsePacket([][]byte{v.Bytes("cookie", 8)}, s2c, otherID)
+	buf := make([]byte, 48)
+	copy(buf, v.Bytes("ntphdr", 48))
+	EncodePacket(&buf, &resp)
+	var f ntske.Fetcher
+	var got Packet
+	if DecodePacket(&got, buf) == nil && ProcessResponse(buf, s2c, &f, &got, reqID) == nil {
+		v.Assert(idLen == 32 && c10eq(otherID, reqID), "C10.sound.response-to-another-request-not-accepted")
+	}
+	v.Reach("C10.responseotherid")
+}
+
+func VerifC10ResponseOtherID32() { c10ResponseOtherID(32) }
+func VerifC10ResponseOtherID36() { c10ResponseOtherID(36) }
